@@ -1,15 +1,42 @@
 """C17 - specification helpers equal their documented closed forms."""
-CONTRACT_MODULES = ['piecewise']
+CONTRACT_MODULES = ['piecewise', 'c17_builders']
 LEVEL = 'other'
 TRUSTED = ['pyvc (VC generator, Python semantics of the stated subset)', 'z3 5.1.0 / cvc5 1.0.3',
-           'LEMMA sum-zero-tail (finite sums; induction)']
+           'LEMMA sum-zero-tail (finite sums; induction)',
+           'contracts/c17_obligations.py: symbolic execution of the straight-line builder tails (ast + sympy), region samples',
+           'sympy (term equality), scipy.stats / scipy.integrate.quad and the decimal module (oracles of the bounded stand-ins)',
+           'contracts/c17_builders.py: constructors/operators of expression nodes are assumed fresh and effect-free']
 ASSUMPTIONS = ['A-REAL: floats are mathematical reals',
-               'A-NLA-UF: products of two symbolic reals are an uninterpreted commutative function with 0/1 laws']
+               'A-NLA-UF: products of two symbolic reals are an uninterpreted commutative function with 0/1 laws',
+               'A-NODE (C01): Expression operators denote real arithmetic, comparisons 0/1 indicators, exp/log the real functions, '
+               'Elem selection, bioMultSum a sum (used by the static tree == textbook obligations; checked natively by the bounded stand-ins)',
+               'piecewise builders under contract: `variable` given by name (str), coefficients given (not None), thresholds well formed, '
+               'not a single threshold; frame of piecewise_variables decided by C17:static:piecewise_variables:mutates-only-own-list']
 EXPLANATION = ('piecewise_function is proved equal to the documented closed form for all arguments, threshold lists and '
-               'coefficient lists (unbounded, loop invariant over a recursive sum).  Builders (piecewise_variables/formula, '
-               'boxcox, distributions, segmentation, nests.correlation) are decided by bounded/shape-bounded stand-ins.')
-LEVEL_TEXT = ('Mixed: deductive proof (all inputs, all list lengths) for piecewise_function; the expression builders are compared with '
-              'their closed forms by bounded stand-ins on the real code, labelled bounded and never counted as proved.')
-LEVEL_NOTE = 'Trusted: pyvc, z3/cvc5, floats as reals, the finite-sum lemma; bounded stand-ins cover the stated shapes only.'
-TECHNIQUE = 'contract-based deductive verification (AST -> VCs -> z3/cvc5) + bounded stand-ins on the real code'
+               'coefficient lists (unbounded, loop invariant over a recursive sum).  piecewise_variables is proved to return one variable per '
+               'interval without TypeError/IndexError for every well-formed threshold list, piecewise_formula / piecewise_as_variable to refuse '
+               'exactly the wrong numbers of coefficients and to index the variables safely (all list lengths).  The trees of boxcox, '
+               'normalpdf, lognormalpdf, uniformpdf, triangularpdf, logisticcdf and loglikelihoodregression are compared with the textbook terms '
+               'symbolically, region by region, for all real values (static, ast + sympy; constants within 1e-9), and the textbook densities are '
+               'integrated to one symbolically (lemma, sympy).  Values of all builders '
+               '(piecewise K<=6, Box-Cox around the switching point, densities on grids and their integrals, segmentations <= 3 x 4, '
+               'nested-logit correlations and their labels) are decided by bounded stand-ins on the real code, labelled bounded.')
+LEVEL_TEXT = ('Mixed: deductive proof (all inputs, all list lengths) for piecewise_function and the threshold handling of the three piecewise '
+              'builders; static symbolic comparison (all real values) of the density / Box-Cox / regression trees with the textbook terms; '
+              'bounded stand-ins on the real code with independent oracles (scipy.stats, quadrature, 50-digit decimal arithmetic, closed '
+              'forms) for the values, labelled bounded with their bounds and never counted as proved.')
+LEVEL_NOTE = ('Trusted: pyvc, z3/cvc5, floats as reals, the finite-sum lemma, the meaning of expression nodes (C01), sympy; '
+              'bounded stand-ins cover the stated shapes and grids only.')
+TECHNIQUE = ('contract-based deductive verification (AST -> VCs -> z3/cvc5) + static symbolic execution of builder tails (ast + sympy) '
+             '+ bounded stand-ins on the real code')
 DESIGN_REF = 'DESIGN.md section 3 / C17'
+
+try:      # replay code of every static / bounded obligation (tools that only read the metadata may lack the path)
+    from contracts.c17_obligations import REPLAYS
+except ImportError:      # pragma: no cover
+    REPLAYS = {}
+
+
+def extra(tier, seed):
+    from contracts.c17_obligations import extras
+    return extras(tier, seed)
